@@ -23,6 +23,7 @@ import (
 	res "github.com/jirenius/go-res"
 	"github.com/jirenius/go-res/store"
 	"github.com/jirenius/go-res/store/badgerstore"
+	"github.com/jirenius/go-res/store/mockstore"
 	nats "github.com/nats-io/nats.go"
 
 	. "verifharness/common"
@@ -103,6 +104,9 @@ func parseQ(q url.Values) qd {
 }
 
 func mkIQ(qs *badgerstore.QueryStore, uv url.Values) (*badgerstore.IndexQuery, error) {
+	if uv.Get("bad") != "" {
+		return nil, errors.New("invalid query")
+	}
 	q := parseQ(uv)
 	name := "k"
 	if q.I == 1 {
@@ -499,6 +503,9 @@ type c13desc struct {
 	Unprefixed bool `json:"unprefixed_store"`
 	// Overlap != 0: the overlapping-Flush scenario (see flushOverlap), Muts/Queries are what it ran
 	Overlap int `json:"overlapping_flush"`
+	// Foreign: raw keys (hex) written into the database after the Flush, under an index prefix but without the
+	// NUL separator: FetchCollection's "index entry is invalid" error path (correspondence only)
+	Foreign []string `json:"foreign_keys,omitempty"`
 }
 
 func runC13(d c13desc, dist map[string]int, impl *[]ImplViolation) Case {
@@ -534,7 +541,15 @@ func runC13(d c13desc, dist map[string]int, impl *[]ImplViolation) Case {
 	if raceBad != 0 {
 		*impl = append(*impl, ImplViolation{What: fmt.Sprintf("a query racing with index maintenance failed (kind %d: 1 error, 2 panic)", raceBad), Desc: d})
 	}
+	var foreign []string
+	for _, h := range d.Foreign {
+		k, _ := hex.DecodeString(h)
+		foreign = append(foreign, string(k))
+		e.db.Update(func(txn *badger.Txn) error { return txn.Set(k, nil) })
+	}
+	stored := e.stored()
 	vals := e.storedVals()
+	keys := BList(e.indexKeys())
 	var qos []string
 	nonEmpty, multi := 0, 0
 	for _, q := range d.Queries {
@@ -550,6 +565,13 @@ func runC13(d c13desc, dist map[string]int, impl *[]ImplViolation) Case {
 			dist["query_error"]++
 		}
 	}
+	if !d.Unprefixed && len(d.Foreign) == 0 && len(d.Muts)%5 == 0 {
+		// RebuildIndexes on a flushed store must reproduce the key space
+		if err := e.qs.RebuildIndexes(); err != nil || BList(e.indexKeys()) != keys {
+			*impl = append(*impl, ImplViolation{What: fmt.Sprintf("QueryStore.RebuildIndexes does not reproduce the index key space of the flushed store (error %v)", err), Desc: d, Tags: []string{"rebuild"}})
+		}
+		dist["rebuild_index_checks"]++
+	}
 	dist["queries"] += len(d.Queries)
 	dist["queries_nonempty_result"] += nonEmpty
 	dist["queries_multi_result"] += multi
@@ -559,7 +581,7 @@ func runC13(d c13desc, dist map[string]int, impl *[]ImplViolation) Case {
 	}
 	var c Case
 	c.Desc = d
-	c.Term = "C13 " + List(ms) + " " + e.stored() + " " + B(e.vp) + " " + BList(e.indexKeys()) + " " + List(qos)
+	c.Term = "C13 " + List(ms) + " " + stored + " " + B(e.vp) + " " + keys + " " + BList(foreign) + " " + List(qos)
 	c.Nontrivial = multi > 0 && len(vals) >= 2
 	if hasNulKey(vals) {
 		c.Tags = append(c.Tags, "nul-in-key")
@@ -762,14 +784,14 @@ func flushOverlap(variant int, dist map[string]int, impl *[]ImplViolation) Case 
 		case <-dn:
 		case <-time.After(10 * time.Second):
 			*impl = append(*impl, ImplViolation{What: "overlapping Flush: a Flush call did not return after the index tasks were released", Desc: d, Tags: []string{"flush-overlap"}})
-			return Case{Term: "C13 [] [] [] [] []", Desc: d}
+			return Case{Term: "C13 [] [] [] [] [] []", Desc: d}
 		}
 	}
 	var ms []string
 	for _, m := range muts {
 		ms = append(ms, m.coq())
 	}
-	c.Term = "C13 " + List(ms) + " " + stored + " " + B(e.vp) + " " + keys + " " + List(qos)
+	c.Term = "C13 " + List(ms) + " " + stored + " " + B(e.vp) + " " + keys + " [] " + List(qos)
 	c.Nontrivial = true
 	dist["overlapping_flush_scenarios"]++
 	return c
@@ -856,7 +878,7 @@ func mainRace(o Opts) {
 			svc.Shutdown()
 			e.close()
 			dist["race_scenarios"]++
-			cases = append(cases, Case{Term: "C13 [] [] [] [] []", Desc: map[string]interface{}{"scenario": "shared-index-query", "offset": v.off, "limit": v.lim}})
+			cases = append(cases, Case{Term: "C13 [] [] [] [] [] []", Desc: map[string]interface{}{"scenario": "shared-index-query", "offset": v.off, "limit": v.lim}})
 		}
 	}
 	Emit(o, "C13", "From GoRes Require Import Run.Run_C13.", "c13case",
@@ -912,6 +934,15 @@ func mainC13(o Opts, nul bool) {
 				dist["nontrivial"]++
 			}
 			cases = append(cases, c)
+		}
+		// a key under an index prefix that is no index entry: the error path of FetchCollection / Query
+		for fi, fk := range []string{"k:zz", "kb:a"} {
+			ms := genHistory(r, 6+fi, false)
+			qs := genQueries(r, ms, false, 40)
+			qs = append(qs, qd{I: fi, L: -1}, qd{I: fi, L: -1, R: true}, qd{I: 1 - fi, L: -1})
+			d := c13desc{Muts: ms, Queries: qs, Foreign: []string{hex.EncodeToString([]byte(fk))}}
+			cases = append(cases, runC13(d, dist, &impl))
+			dist["histories_with_malformed_foreign_key"]++
 		}
 		// backlog histories: > 256 outstanding index tasks, further key-changing writes and deletes on ids
 		// that still have an unapplied change queued, release, Flush, then the usual queries
@@ -1164,39 +1195,42 @@ func parseResp(b []byte, ok bool) (int, string) {
 	if err := json.Unmarshal(b, &w); err != nil || w.Result == nil {
 		return 2, emptyColl
 	}
-	if len(w.Result.Collection) > 0 {
-		if string(w.Result.Collection) == "null" {
+	// the value is read by its JSON shape (a handler may send an id list as "model" or a map as "collection"
+	// when its resource type does not fit its transformer)
+	raw := w.Result.Collection
+	if len(raw) == 0 {
+		raw = w.Result.Model
+	}
+	if len(raw) > 0 {
+		if string(raw) == "null" {
 			atomic.AddInt32(&nullCollections, 1)
 			return 1, emptyColl
 		}
-		var raw []json.RawMessage
-		if err := json.Unmarshal(w.Result.Collection, &raw); err != nil {
-			return 2, emptyColl
-		}
-		var ids []string
-		for _, m := range raw {
-			v, ok := member(m)
-			if !ok {
-				return 2, emptyColl
+		var arr []json.RawMessage
+		if json.Unmarshal(raw, &arr) == nil {
+			var ids []string
+			for _, m := range arr {
+				v, ok := member(m)
+				if !ok {
+					return 2, emptyColl
+				}
+				ids = append(ids, v)
 			}
-			ids = append(ids, v)
+			return 1, "(VColl " + BList(ids) + ")"
 		}
-		return 1, "(VColl " + BList(ids) + ")"
-	}
-	if len(w.Result.Model) > 0 {
-		var raw map[string]json.RawMessage
-		if err := json.Unmarshal(w.Result.Model, &raw); err != nil || raw == nil {
-			return 2, emptyColl
-		}
-		m := map[string]string{}
-		for k, x := range raw {
-			v, ok := member(x)
-			if !ok {
-				return 2, emptyColl
+		var obj map[string]json.RawMessage
+		if json.Unmarshal(raw, &obj) == nil && obj != nil {
+			m := map[string]string{}
+			for k, x := range obj {
+				v, ok := member(x)
+				if !ok {
+					return 2, emptyColl
+				}
+				m[k] = v
 			}
-			m[k] = v
+			return 1, "(VModel " + AMap(m) + ")"
 		}
-		return 1, "(VModel " + AMap(m) + ")"
+		return 2, emptyColl
 	}
 	if w.Result.Events != nil && len(*w.Result.Events) == 0 {
 		return 0, emptyColl
@@ -1586,7 +1620,7 @@ func runC14(d c14desc, dist map[string]int, impl *[]ImplViolation) Case {
 	}
 	var c Case
 	c.Desc = d
-	c.Term = fmt.Sprintf("C14 %s %s %s %s %s %s", List(qsT), Bool(d.Handlers), Bool(d.Delayed), Bool(d.Inject != 0), List(subsT), List(segTerms))
+	c.Term = fmt.Sprintf("Hist (C14 %s %s %s %s %s %s)", List(qsT), Bool(d.Handlers), Bool(d.Delayed), Bool(d.Inject != 0), List(subsT), List(segTerms))
 	c.Nontrivial = nAffT > 0 && nAffF > 0
 	if nilkey {
 		c.Tags = append(c.Tags, "nilkey-empty-prefix")
@@ -1619,6 +1653,510 @@ func genBacklog(r *Rng, n int) c14desc {
 	qs[0] = qd{I: 1, P: "", F: 0, O: 0, L: -1}
 	qs[1] = qd{I: 0, P: "", F: 0, O: 0, L: -1}
 	return c14desc{Segs: [][]mut{ms}, Queries: qs, Backlog: true}
+}
+
+// ---------------------------------------------------------------- directed handler scenarios
+
+type evDesc struct {
+	Name     string             `json:"name"`  // add remove change or anything else
+	Value    string             `json:"value"` // id of an add / remove event
+	BadValue bool               `json:"bad_value"` // the Value is a number instead of a string
+	Idx      int                `json:"idx"`
+	Changed  map[string]*string `json:"changed,omitempty"` // nil value = delete action
+}
+
+type dirDesc struct {
+	Directed bool     `json:"directed"`
+	HasStore bool     `json:"with_query_store"`
+	TKind    int      `json:"type"` // 0 unset 1 model 2 collection 3 another value
+	Wild     bool     `json:"placeholder_pattern"`
+	QRH      int      `json:"query_request_handler"` // 0 unset 1 ok 2 error 3 empty normalized query
+	RH       int      `json:"request_handler"`       // 0 unset 1 ok 2 error
+	Trans    int      `json:"transformer"`           // 0 none 1 IDToRIDCollectionTransformer 2 IDToRIDModelTransformer
+	ARSet    bool     `json:"affected_resources_set"`
+	AR       []string `json:"affected_resources"`
+	QueryIDs []string `json:"query_ids"`
+	QueryErr bool     `json:"query_error"`
+	QueryBad bool     `json:"query_not_a_string_slice"` // only with a transformer: TransformResult fails
+	EvErr    bool     `json:"events_error"`
+	EvReset  bool     `json:"events_reset"`
+	Evs      []evDesc `json:"events"`
+	Expire   bool     `json:"wait_for_query_event_expiry"`
+}
+
+func dRef(id string) string { return "d.i." + id }
+
+func evCoq(name string, value string, isStr bool, idx int, changed map[string]*string) string {
+	switch name {
+	case "add":
+		if !isStr {
+			return "EvBad true " + Z(idx)
+		}
+		return "EvAdd " + B(value) + " " + Z(idx)
+	case "remove":
+		if !isStr {
+			return "EvBad false " + Z(idx)
+		}
+		return "EvRemove " + B(value) + " " + Z(idx)
+	case "change":
+		keys := make([]string, 0, len(changed))
+		for k := range changed {
+			keys = append(keys, k)
+		}
+		sort.Strings(keys)
+		var parts []string
+		for _, k := range keys {
+			if changed[k] == nil {
+				parts = append(parts, "("+B(k)+",None)")
+			} else {
+				parts = append(parts, "("+B(k)+",Some "+B(*changed[k])+")")
+			}
+		}
+		return "EvChange " + List(parts)
+	}
+	return "EvOther"
+}
+
+// an event as published on the wire (resource event payload or the data of a query response event)
+func wireEvent(name string, data []byte) string {
+	switch name {
+	case "add":
+		var a struct {
+			Value json.RawMessage `json:"value"`
+			Idx   int             `json:"idx"`
+		}
+		json.Unmarshal(data, &a)
+		v, ok := member(a.Value)
+		return "(" + evCoq("add", v, ok, a.Idx, nil) + ")"
+	case "remove":
+		var a struct {
+			Idx int `json:"idx"`
+		}
+		json.Unmarshal(data, &a)
+		return "(" + evCoq("remove", "", true, a.Idx, nil) + ")"
+	case "change":
+		var a struct {
+			Values map[string]json.RawMessage `json:"values"`
+		}
+		json.Unmarshal(data, &a)
+		ch := map[string]*string{}
+		for k, x := range a.Values {
+			if v, ok := member(x); ok {
+				v := v
+				ch[k] = &v
+			} else {
+				ch[k] = nil // {"action":"delete"}
+			}
+		}
+		return "(" + evCoq("change", "", true, 0, ch) + ")"
+	}
+	return "EvOther"
+}
+
+func safeCall(f func()) (panicked bool) {
+	defer func() {
+		if recover() != nil {
+			panicked = true
+		}
+	}()
+	f()
+	return
+}
+
+func runDirected(d dirDesc, dist map[string]int, impl *[]ImplViolation) Case {
+	var c Case
+	c.Desc = d
+	ms := mockstore.NewQueryStore(func(q url.Values) (interface{}, error) {
+		switch {
+		case d.QueryErr:
+			return nil, errors.New("store failure")
+		case d.QueryBad:
+			return 42, nil
+		}
+		return append([]string{}, d.QueryIDs...), nil
+	})
+	qh := store.QueryHandler{}
+	if d.HasStore {
+		qh = qh.WithQueryStore(ms)
+	}
+	switch d.QRH {
+	case 1:
+		qh = qh.WithQueryRequestHandler(func(rname string, pp map[string]string, q url.Values) (url.Values, string, error) {
+			return q, q.Encode(), nil
+		})
+	case 2:
+		qh = qh.WithQueryRequestHandler(func(string, map[string]string, url.Values) (url.Values, string, error) {
+			return nil, "", &res.Error{Code: "d.invalidQuery", Message: "rejected"}
+		})
+	case 3:
+		qh = qh.WithQueryRequestHandler(func(rname string, pp map[string]string, q url.Values) (url.Values, string, error) {
+			return q, "", nil
+		})
+	}
+	switch d.RH {
+	case 1:
+		qh = qh.WithRequestHandler(func(string, map[string]string) (url.Values, error) { return url.Values{"x": {"1"}}, nil })
+	case 2:
+		qh = qh.WithRequestHandler(func(string, map[string]string) (url.Values, error) { return nil, errors.New("rejected") })
+	}
+	switch d.Trans {
+	case 1:
+		qh = qh.WithTransformer(store.IDToRIDCollectionTransformer(dRef))
+	case 2:
+		qh = qh.WithTransformer(store.IDToRIDModelTransformer(dRef))
+	}
+	if d.ARSet {
+		qh = qh.WithAffectedResources(func(_ res.Pattern, qc store.QueryChange) []string {
+			if qc.ID() != "1" || qc.Before() != nil || qc.After() == nil {
+				return nil // the change is handed to the callback as it was triggered
+			}
+			return append([]string{}, d.AR...)
+		})
+	}
+	var logErrs int32
+	svc := res.NewService("d")
+	svc.SetLogger(nolog{&logErrs})
+	svc.SetQueryEventDuration(40 * time.Millisecond)
+	pat := "x"
+	if d.Wild {
+		pat = "$p"
+	}
+	opts := []res.Option{qh}
+	switch d.TKind {
+	case 1:
+		opts = append(opts, res.Model)
+	case 2:
+		opts = append(opts, res.Collection)
+	case 3:
+		opts = append(opts, res.OptionFunc(func(h *res.Handler) { h.Type = res.ResourceType(7) }))
+	}
+	setupPanic := safeCall(func() { svc.Handle(pat, opts...) })
+	// which announced names the service resolves
+	known := map[string]bool{"d.x": true}
+	for _, r := range d.AR {
+		parts := strings.Split(r, ".")
+		if r == "d.x" || (d.Wild && len(parts) == 2 && parts[0] == "d") {
+			known[r] = true
+		}
+	}
+	var knownL []string
+	for k := range known {
+		knownL = append(knownL, k)
+	}
+	sort.Strings(knownL)
+
+	getTerm, pubsTerm, respsTerm := "None", "[]", "[]"
+	changePanic := false
+	if !setupPanic {
+		var mu sync.Mutex
+		var pubs, resps []string
+		var gw sync.WaitGroup
+		conn := newConn()
+		started := make(chan struct{})
+		var once sync.Once
+		conn.onPub = func(subj string, payload []byte) {
+			switch {
+			case subj == "system.reset":
+				var ev struct {
+					Resources []string `json:"resources"`
+				}
+				json.Unmarshal(payload, &ev)
+				for _, rid := range ev.Resources {
+					if strings.HasSuffix(rid, ">") {
+						once.Do(func() { close(started) })
+						return
+					}
+				}
+				mu.Lock()
+				for _, rid := range ev.Resources {
+					pubs = append(pubs, "PReset "+B(rid))
+				}
+				mu.Unlock()
+			case strings.HasPrefix(subj, "event.") && strings.HasSuffix(subj, ".query"):
+				rid := subj[len("event.") : len(subj)-len(".query")]
+				var ev struct {
+					Subject string `json:"subject"`
+				}
+				json.Unmarshal(payload, &ev)
+				mu.Lock()
+				pubs = append(pubs, "PQueryEvent "+B(rid))
+				slot := len(resps)
+				resps = append(resps, "DRErr")
+				mu.Unlock()
+				gw.Add(1)
+				go func() {
+					defer gw.Done()
+					b, ok := conn.request(ev.Subject, []byte(`{"query":"a=1"}`))
+					term := "DRErr"
+					var w struct {
+						Result *struct {
+							Events *[]struct {
+								Event string          `json:"event"`
+								Data  json.RawMessage `json:"data"`
+							} `json:"events"`
+						} `json:"result"`
+					}
+					if ok && json.Unmarshal(b, &w) == nil && w.Result != nil && w.Result.Events != nil {
+						var evs []string
+						for _, e := range *w.Result.Events {
+							evs = append(evs, wireEvent(e.Event, e.Data))
+						}
+						term = "DREvents " + List(evs)
+					} else if kind, v := parseResp(b, ok); kind == 1 {
+						term = "DRValue " + v
+					}
+					mu.Lock()
+					resps[slot] = term
+					mu.Unlock()
+				}()
+			case strings.HasPrefix(subj, "event."):
+				i := strings.LastIndexByte(subj, '.')
+				rid, name := subj[len("event."):i], subj[i+1:]
+				mu.Lock()
+				pubs = append(pubs, "PEvent "+B(rid)+" "+wireEvent(name, payload))
+				mu.Unlock()
+			}
+		}
+		go svc.Serve(conn)
+		select {
+		case <-started:
+		case <-time.After(5 * time.Second):
+			*impl = append(*impl, ImplViolation{What: "directed scenario: the service did not start", Desc: d})
+		}
+		pl := []byte(`{}`)
+		if d.QRH != 0 {
+			pl = []byte(`{"query":"a=1"}`)
+		}
+		b, ok := conn.request("get.d.x", pl)
+		if kind, v := parseResp(b, ok); kind == 1 {
+			getTerm = "(Some " + v + ")"
+		}
+		changePanic = safeCall(func() {
+			if !d.EvErr && !d.EvReset && len(d.Evs) == 0 {
+				ms.TriggerQueryChange(mockstore.QueryChange{IDValue: "1", AfterValue: 1}) // no OnEvents: (nil, false, nil)
+				return
+			}
+			ms.TriggerQueryChange(mockstore.QueryChange{IDValue: "1", AfterValue: 1, OnEvents: func(q url.Values) ([]store.ResultEvent, bool, error) {
+				if d.EvErr {
+					return nil, false, errors.New("events failure")
+				}
+				var evs []store.ResultEvent
+				for _, e := range d.Evs {
+					re := store.ResultEvent{Name: e.Name, Idx: e.Idx, Value: e.Value}
+					if e.BadValue {
+						re.Value = 7
+					}
+					if e.Name == "change" {
+						re.Value = nil
+						re.Changed = map[string]interface{}{}
+						for k, v := range e.Changed {
+							if v == nil {
+								re.Changed[k] = res.DeleteAction
+							} else {
+								re.Changed[k] = *v
+							}
+						}
+					}
+					evs = append(evs, re)
+				}
+				return evs, d.EvReset, nil
+			}})
+		})
+		gwDone := make(chan struct{})
+		go func() { gw.Wait(); close(gwDone) }()
+		select {
+		case <-gwDone:
+		case <-time.After(12 * time.Second):
+			*impl = append(*impl, ImplViolation{What: "directed scenario: a query request got no answer", Desc: d})
+		}
+		if d.Expire {
+			time.Sleep(90 * time.Millisecond) // the query event expires: final callback call with nil
+			dist["directed_query_event_expired"]++
+		}
+		svc.Shutdown()
+		mu.Lock()
+		pubsTerm, respsTerm = List(pubs), List(resps)
+		mu.Unlock()
+	}
+	var evs []string
+	for _, e := range d.Evs {
+		evs = append(evs, "("+evCoq(e.Name, e.Value, !e.BadValue, e.Idx, e.Changed)+")")
+	}
+	query := "(Some " + BList(d.QueryIDs) + ")"
+	if d.QueryErr || d.QueryBad {
+		query = "None"
+	}
+	events := "(Some (" + List(evs) + "," + Bool(d.EvReset) + "))"
+	if d.EvErr {
+		events = "None"
+	}
+	ar := "None"
+	if d.ARSet {
+		ar = "(Some " + BList(d.AR) + ")"
+	}
+	c.Term = fmt.Sprintf("Dir (DC %s %d %s %d %d %d %s %s %s %s %s %s %s %s %s)", Bool(d.HasStore), d.TKind, Bool(d.Wild), d.QRH, d.RH, d.Trans,
+		ar, BList(knownL), query, events, Bool(setupPanic), getTerm, pubsTerm, Bool(changePanic), respsTerm)
+	c.Nontrivial = !setupPanic && (len(d.Evs) > 0 || d.EvReset)
+	dist["directed_scenarios"]++
+	if setupPanic {
+		dist["directed_setup_panics"]++
+	}
+	if changePanic {
+		dist["directed_change_handler_panics"]++
+	}
+	return c
+}
+
+func sp(s string) *string { return &s }
+
+// the directed scenarios: every branch of querystorehandler.go and of the two QueryTransformers
+func directedList(r *Rng, extra int) []dirDesc {
+	base := func() dirDesc {
+		return dirDesc{Directed: true, HasStore: true, TKind: 2, QueryIDs: []string{"1", "2"}}
+	}
+	var ds []dirDesc
+	add := func(f func(d *dirDesc)) {
+		d := base()
+		f(&d)
+		ds = append(ds, d)
+	}
+	adds := []evDesc{{Name: "remove", Value: "1", Idx: 0}, {Name: "add", Value: "3", Idx: 1}}
+	// invalid configurations
+	add(func(d *dirDesc) { d.HasStore = false })
+	add(func(d *dirDesc) { d.QRH, d.RH = 1, 1 })
+	add(func(d *dirDesc) { d.Wild = true })
+	add(func(d *dirDesc) { d.TKind = 0 })
+	add(func(d *dirDesc) { d.TKind = 3 })
+	// ordinary resources
+	add(func(d *dirDesc) { d.EvReset = true })
+	add(func(d *dirDesc) { d.RH = 1; d.EvReset = true })
+	add(func(d *dirDesc) { d.RH = 2; d.EvReset = true })
+	add(func(d *dirDesc) { d.QueryErr = true })
+	add(func(d *dirDesc) { d.Trans = 1; d.QueryBad = true; d.EvReset = true })
+	add(func(d *dirDesc) { d.TKind, d.Trans, d.QueryBad = 1, 2, true })
+	add(func(d *dirDesc) { d.EvErr = true })
+	add(func(d *dirDesc) {})
+	add(func(d *dirDesc) { d.Evs = adds })
+	add(func(d *dirDesc) { d.Trans = 1; d.Evs = adds })
+	add(func(d *dirDesc) { d.Trans = 1; d.Evs = []evDesc{{Name: "add", BadValue: true, Idx: 0}} })
+	add(func(d *dirDesc) { d.Evs = []evDesc{{Name: "add", BadValue: true, Idx: 0}, {Name: "remove", BadValue: true, Idx: 1}} })
+	add(func(d *dirDesc) { d.Evs = []evDesc{{Name: "add", Value: "3", Idx: 0}, {Name: "move", Idx: 1}} })
+	add(func(d *dirDesc) { d.Evs = []evDesc{{Name: "add", Value: "3", Idx: -1}} })
+	add(func(d *dirDesc) { d.Evs = []evDesc{{Name: "change", Changed: map[string]*string{"a": sp("b")}}} })
+	add(func(d *dirDesc) { d.TKind, d.Trans, d.Evs = 1, 2, adds })
+	add(func(d *dirDesc) { d.TKind, d.Trans = 1, 2; d.Evs = []evDesc{{Name: "remove", BadValue: true, Idx: 0}} })
+	add(func(d *dirDesc) { d.TKind, d.Trans = 1, 2; d.EvReset = true })
+	add(func(d *dirDesc) { d.TKind = 1; d.Evs = []evDesc{{Name: "change", Changed: map[string]*string{"1": sp("x"), "2": nil}}, {Name: "change"}} })
+	add(func(d *dirDesc) { d.TKind = 1; d.Evs = adds })
+	add(func(d *dirDesc) { d.Wild, d.ARSet, d.AR = true, true, []string{"d.y", "d.x", "d.z"}; d.EvReset = true })
+	add(func(d *dirDesc) { d.Wild, d.ARSet, d.AR = true, true, []string{"d.x", "e.nosuch", "d.z"}; d.Evs = adds })
+	add(func(d *dirDesc) { d.Wild, d.ARSet, d.AR = true, true, nil; d.EvReset = true })
+	// query resources
+	add(func(d *dirDesc) { d.QRH = 1; d.EvReset = true; d.Expire = true })
+	add(func(d *dirDesc) { d.QRH = 2; d.EvReset = true })
+	add(func(d *dirDesc) { d.QRH = 3; d.EvReset = true })
+	add(func(d *dirDesc) { d.QRH = 1; d.QueryErr = true; d.EvReset = true })
+	add(func(d *dirDesc) { d.QRH = 1; d.EvErr = true })
+	add(func(d *dirDesc) { d.QRH = 1 })
+	add(func(d *dirDesc) { d.QRH = 1; d.Evs = adds })
+	add(func(d *dirDesc) { d.QRH, d.Trans = 1, 1; d.Evs = adds; d.Expire = true })
+	add(func(d *dirDesc) { d.QRH, d.Trans = 1, 1; d.Evs = []evDesc{{Name: "add", BadValue: true, Idx: 0}} })
+	add(func(d *dirDesc) { d.QRH = 1; d.Evs = []evDesc{{Name: "add", Value: "3", Idx: 0}, {Name: "move", Idx: 1}} })
+	add(func(d *dirDesc) { d.QRH = 1; d.Evs = []evDesc{{Name: "add", Value: "3", Idx: -2}} })
+	add(func(d *dirDesc) { d.QRH = 1; d.Evs = []evDesc{{Name: "change", Changed: map[string]*string{"a": sp("b")}}} })
+	add(func(d *dirDesc) { d.QRH, d.TKind, d.Trans = 1, 1, 2; d.Evs = adds })
+	add(func(d *dirDesc) { d.QRH, d.TKind, d.Trans = 1, 1, 2; d.EvReset = true })
+	add(func(d *dirDesc) { d.QRH, d.TKind = 1, 1; d.Evs = []evDesc{{Name: "change", Changed: map[string]*string{"1": nil}}, {Name: "change"}} })
+	add(func(d *dirDesc) { d.QRH, d.TKind = 1, 1; d.Evs = adds })
+	add(func(d *dirDesc) { d.QRH, d.Wild, d.ARSet, d.AR = 1, true, true, []string{"d.x", "d.y"}; d.EvReset = true })
+	add(func(d *dirDesc) { d.QRH, d.Wild, d.ARSet, d.AR = 1, true, true, []string{"d.x", "e.nosuch", "d.y"}; d.EvReset = true })
+	// random combinations
+	for i := 0; i < extra; i++ {
+		d := base()
+		d.TKind = 1 + r.Intn(2)
+		d.QRH = r.Intn(2) * (1 + r.Intn(3))
+		if d.QRH == 0 {
+			d.RH = r.Intn(3)
+		}
+		d.Trans = r.Intn(3)
+		if r.Chance(40) {
+			d.Wild, d.ARSet = true, true
+			d.AR = [][]string{{"d.x"}, {"d.y", "d.x"}, {"d.x", "d.x"}, {"e.nosuch", "d.x"}, {}}[r.Intn(5)]
+		}
+		switch r.Intn(6) {
+		case 0:
+			d.QueryErr = true
+		case 1:
+			if d.Trans != 0 {
+				d.QueryBad = true
+			}
+		}
+		switch r.Intn(7) {
+		case 0:
+			d.EvErr = true
+		case 1, 2:
+			d.EvReset = true
+		case 3:
+		default:
+			n := 1 + r.Intn(3)
+			for k := 0; k < n; k++ {
+				switch r.Intn(6) {
+				case 0:
+					d.Evs = append(d.Evs, evDesc{Name: "change", Changed: map[string]*string{r.Pick([]string{"1", "2", "3"}): sp("v")}})
+				case 1:
+					d.Evs = append(d.Evs, evDesc{Name: "add", BadValue: true, Idx: r.Intn(2)})
+				case 2:
+					d.Evs = append(d.Evs, evDesc{Name: "remove", Value: r.Pick([]string{"1", "2"}), Idx: r.Intn(2)})
+				default:
+					d.Evs = append(d.Evs, evDesc{Name: "add", Value: r.Pick([]string{"3", "4", "1"}), Idx: r.Intn(3) - r.Intn(2)*r.Intn(2)})
+				}
+			}
+		}
+		ds = append(ds, d)
+	}
+	return ds
+}
+
+// corner paths of badgerstore.QueryStore that no history reaches; expected = what the code does
+func bsDirected(dist map[string]int) Case {
+	e := newEnv()
+	var logErrs int32
+	e.qs.SetLogger(nolog{&logErrs})
+	var exp, obs []string
+	flag := func(want, got bool) { exp = append(exp, Bool(want)); obs = append(obs, Bool(got)) }
+	flag(true, safeCall(func() { e.qs.AddIndex(badgerstore.Index{Name: "k", Key: keyB}) }))    // duplicate index: panic
+	flag(true, safeCall(func() { e.qs.Index("nosuch") }))                                       // unknown index: panic
+	flag(true, badgerstore.NewQueryStore(e.st, mkIQ).RebuildIndexes() == nil)                 // no index: nothing to do
+	_, err := e.qs.Query(url.Values{"bad": {"1"}})
+	flag(true, err != nil) // the query callback's error is returned
+	cbs, evErr := 0, false
+	e.qs.OnQueryChange(func(qc store.QueryChange) {
+		cbs++
+		evs, reset, err := qc.Events(url.Values{"bad": {"1"}})
+		evErr = err != nil && !reset && evs == nil
+	})
+	e.apply(mut{Op: "c", ID: "1", A: "61", BNil: true})
+	e.qs.Flush()
+	flag(true, cbs == 1 && evErr) // Events with a query the callback rejects: (nil, false, err)
+	// an index key longer than badger accepts: the index transaction collects the error, logs it, runs no callback
+	big := hex.EncodeToString(bytes.Repeat([]byte("x"), 70000))
+	cbs = 0
+	before := atomic.LoadInt32(&logErrs)
+	e.apply(mut{Op: "c", ID: "2", A: big, BNil: true})
+	e.qs.Flush()
+	flag(true, atomic.LoadInt32(&logErrs) > before)
+	flag(true, cbs == 0)
+	before = atomic.LoadInt32(&logErrs)
+	e.apply(mut{Op: "u", ID: "2", A: "62", BNil: true}) // deleting the oversized entry fails as well
+	e.qs.Flush()
+	flag(true, atomic.LoadInt32(&logErrs) > before)
+	tevs, terr := store.IDToRIDModelTransformer(dRef).TransformEvents(nil)
+	flag(true, len(tevs) == 0 && terr == nil) // no events: no change event
+	e.close()
+	dist["badgerstore_directed"]++
+	return Case{Term: "BsDir " + List(exp) + " " + List(obs), Desc: map[string]interface{}{"directed": true, "scenario": "badgerstore-corner-paths",
+		"checks": []string{"AddIndex duplicate panics", "Index of an unknown name panics", "RebuildIndexes without index is a no-op", "Query returns the query callback's error",
+			"Events returns the query callback's error", "oversized index key: error logged", "oversized index key: no query-change callback", "deleting the oversized entry: error logged", "IDToRIDModelTransformer.TransformEvents of no events is no events"}}}
 }
 
 func genC14(r *Rng, i int, thorough bool) c14desc {
@@ -1697,11 +2235,17 @@ func mainC14(o Opts) {
 	dist := map[string]int{}
 	var impl []ImplViolation
 	if o.Replay != "" {
+		var dd dirDesc
 		var d c14desc
-		if err := LoadReplay(o.Replay, &d); err != nil {
+		if err := LoadReplay(o.Replay, &dd); err == nil && dd.Directed {
+			cases = append(cases, runDirected(dd, dist, &impl))
+		} else if err := LoadReplay(o.Replay, &d); err != nil {
 			panic(err)
+		} else if len(d.Segs) == 0 {
+			cases = append(cases, bsDirected(dist))
+		} else {
+			cases = append(cases, runC14(d, dist, &impl))
 		}
-		cases = append(cases, runC14(d, dist, &impl))
 	} else {
 		n := 110
 		if o.Tier == "thorough" {
@@ -1742,10 +2286,20 @@ func mainC14(o Opts) {
 			}
 			cases = append(cases, c)
 		}
+		if !(o.N > 0 && o.N < 20) {
+			extra := 40
+			if o.Tier == "thorough" {
+				extra = 1500
+			}
+			for _, dd := range directedList(r, extra) {
+				cases = append(cases, runDirected(dd, dist, &impl))
+			}
+			cases = append(cases, bsDirected(dist))
+		}
 	}
 	dist["responses_with_null_collection"] = int(nullCollections)
-	Emit(o, "C14", "From GoRes Require Import Run.Run_C14.", "c14case",
-		"random mutation histories (as C13) cut into segments (single mutations / runs of 1-5 / one run), QueryStore.Flush after each segment; two recording OnQueryChange callbacks that run 8 (thorough 16) index queries and Events() inside the callback; Store.OnChange reports; in 4 of 5 histories a res.Service with four store.QueryHandler resources (ordinary / query resource x without / with path parameters and AffectedResources; IDToRIDCollectionTransformer on the ordinary path-parameter collection, IDToRIDModelTransformer on the query model with a path parameter) on a recording connection playing the gateway (query requests for every subscribed client query, sent at once or - every second history - only after all mutations of the segment were indexed; fresh gets after each segment); in two thirds of the handler histories AffectedResources of the ordinary path-parameter resource also returns a resource whose resourceEvent fails (unknown name / rejected parameter) first, last, in the middle or rotating; plus backlog histories: one writer goroutine issues 300-600 (thorough up to 2000) mutations over the 4 ids while the index consumer is stalled inside Index.Key, so the 256-slot task queue fills up, then the consumer is released; non-trivial = some Events() call reported affected and some unaffected; distinct by (segments, queries, subscriptions)",
+	Emit(o, "C14", "From GoRes Require Import Run.Run_C14.", "c14any",
+		"random mutation histories (as C13) cut into segments (single mutations / runs of 1-5 / one run), QueryStore.Flush after each segment; two recording OnQueryChange callbacks that run 8 (thorough 16) index queries and Events() inside the callback; Store.OnChange reports; in 4 of 5 histories a res.Service with four store.QueryHandler resources (ordinary / query resource x without / with path parameters and AffectedResources; IDToRIDCollectionTransformer on the ordinary path-parameter collection, IDToRIDModelTransformer on the query model with a path parameter) on a recording connection playing the gateway (query requests for every subscribed client query, sent at once or - every second history - only after all mutations of the segment were indexed; fresh gets after each segment); in two thirds of the handler histories AffectedResources of the ordinary path-parameter resource also returns a resource whose resourceEvent fails (unknown name / rejected parameter) first, last, in the middle or rotating; plus directed handler scenarios (store.QueryHandler built through the With... option API on a real res.Service over mockstore.QueryStore: invalid configurations with their panics, failing request handlers / stores / transformers, stores answering with add / remove / change events through the two shipped QueryTransformers, unknown announced resources, query event expiry; about 45 fixed and 40 random combinations) and one scenario for the corner paths of badgerstore.QueryStore; plus backlog histories: one writer goroutine issues 300-600 (thorough up to 2000) mutations over the 4 ids while the index consumer is stalled inside Index.Key, so the 256-slot task queue fills up, then the consumer is released; non-trivial = some Events() call reported affected and some unaffected; distinct by (segments, queries, subscriptions)",
 		cases, dist, nil, impl, 25)
 }
 
